@@ -8,6 +8,7 @@ CONSTANTS
   NMsg = 1
   KF_RsetBypass = FALSE
   KF_RcptBeforeMail = FALSE
+  KF_HeloReportsEhlo = FALSE
   KF_FlushOutside = FALSE
   KF_FirstRcptClass = FALSE
   Tls = "req"
